@@ -1,11 +1,13 @@
 """C13 - decided on the channel state machine (Model/Chan.v, Model/ChanProps.v)."""
 from harness.chandrv import ChanDriver
+from harness import concdrv
 
 
 class Driver(ChanDriver):
     PID = 'C13'
     PROP = 'c13_ok'
     PROFILES = [('confirm', 150, 2000)]
+    CONC = [('confirm', concdrv.gen_rpc, 'conc_own_reply_ok', 40, 600)]
     RULE = ("scenarios from the profiles ['confirm'] of harness/changen.py: sequences of "
             'application operations on 1-3 channels, each with a script of '
             'inbound frame batches (replies, deliveries, returns, cancels, '
